@@ -8,12 +8,17 @@
 //! row is poisoned so that it fails with one failure kind (integer division by zero, type
 //! error in an operand, duplicate value under a unique constraint, write to a node deleted
 //! earlier in the statement, plain DELETE of a node that keeps a relationship the clause does
-//! not name).  The label :A carries one to three unique constraints (u, k, w — knob).
+//! not name), at one failure site (the write's own expression, a WHERE before it, a RETURN
+//! after it, the projection of a WITH between row source and write clause — `MATCH (n:R)
+//! WITH n, 10 / n.d AS q SET ..`, `UNWIND .. AS x WITH x, 10 / x AS q CREATE ..`, bare,
+//! sorting, or behind a sorting WITH).  The label :A carries one to three unique constraints (u, k, w — knob).
 //! The failing row position is ENUMERATED 0..k-1 inside
 //! `execute` (one sub-execution per position, pinned for replay).
 //!
 //! Oracle (only when the statement returns Err): the store equals a twin built by
-//! replaying the same setup — dump with ids, label/type index views, property-index and
+//! replaying the same setup — dump with ids (row-first property view), the column-first
+//! property view of every node (`node_properties_merged`, what `RETURN n.k` reads: the two
+//! property stores must both be unchanged), label/type index views, property-index and
 //! constraint-index contents, counts, schema; index-forced reads; constraint behaviour
 //! (probe writes that must succeed/fail alike); and the graphs still agree by content
 //! after the probe writes (latent state such as stale column cells under a freed id).
@@ -81,6 +86,9 @@ impl Spec {
         match self.site.as_str() {
             "where" => "fail_before_write",
             "return" => "fail_after_write",
+            // the failing expression sits in the projection of a WITH between the row source and
+            // the write clause
+            "with" => "fail_in_with_projection",
             _ => "fail_in_write",
         }
     }
@@ -164,7 +172,10 @@ fn statement(spec: &Spec, p: usize) -> (String, Vec<i64>) {
     let unwind_src = spec.src == "unwind";
     let opnd = if unwind_src { "x" } else { "n.d" };
     let fe = format!("10 / {opnd}");
-    let fe_own = if own && (spec.fk == "div0" || spec.fk == "type") { fe.clone() } else { "1".to_string() };
+    // (site `with`: the write uses the projected value in half of the forms, a constant in the others)
+    let uses_q = spec.site == "with" && (spec.form / 2) % 2 == 0;
+    let fe_own = if own && (spec.fk == "div0" || spec.fk == "type") { fe.clone() } else if uses_q { "q".to_string() } else { "1".to_string() };
+    let set_val = if uses_q { "q" } else { "99" };
     // ---- source
     let mut created: Vec<i64> = Vec::new();
     let list: Vec<String> = (0..k)
@@ -185,7 +196,23 @@ fn statement(spec: &Spec, p: usize) -> (String, Vec<i64>) {
     let uses_c = spec.fk == "deleted_node" || (spec.wk == "DELETE" && spec.form % 3 == 2) || (spec.fk == "connected" && spec.form % 3 != 1);
     let pat = if uses_c { "(n:R)-[r:T]->(c:C)" } else { "(n:R)" };
     let carry = if uses_c { "n, r, c" } else { "n" };
+    let with_site = spec.site == "with";
     let source = match spec.src.as_str() {
+        // ---- failure planted inside the projection of a WITH that precedes the write clause.  A WITH
+        // ends the reading part of the statement: its whole projection is evaluated before the first row
+        // reaches the write clause, so the failure precedes any write at every row position.  Forms: a
+        // bare projection, a projection that also sorts, and a bare projection behind a sorting WITH.
+        "unwind" if with_site => format!("UNWIND [{}] AS x WITH x, {fe} AS q", list.join(", ")),
+        "match_asc" | "match_desc" if with_site => {
+            let dir = if spec.src == "match_desc" { " DESC" } else { "" };
+            if spec.form % 4 >= 2 {
+                format!("MATCH {pat} WITH {carry}, {fe} AS q ORDER BY n.k{dir}")
+            } else {
+                format!("MATCH {pat} WITH {carry} ORDER BY n.k{dir} WITH {carry}, {fe} AS q")
+            }
+        }
+        "unwind_match" if with_site => format!("UNWIND [{klist}] AS x MATCH {pat} WHERE n.k = x WITH x, {carry}, {fe} AS q"),
+        _ if with_site => format!("MATCH {pat} WITH {carry}, {fe} AS q"),
         "unwind" => {
             if spec.site == "where" {
                 format!("UNWIND [{}] AS x WITH x WHERE {fe} > 0", list.join(", "))
@@ -268,9 +295,9 @@ fn statement(spec: &Spec, p: usize) -> (String, Vec<i64>) {
                 format!("SET n.v = {fe}")
             } else {
                 match spec.form % 3 {
-                    0 => "SET n.v = 99".into(),
-                    1 => "SET n.v = 99, n.z = 1".into(),
-                    _ => "SET n += {v: 99}".into(),
+                    0 => format!("SET n.v = {set_val}"),
+                    1 => format!("SET n.v = {set_val}, n.z = 1"),
+                    _ => format!("SET n += {{v: {set_val}}}"),
                 }
             }
         }
@@ -384,6 +411,11 @@ fn all_values(g: &GraphStore, out: &mut Vec<PropertyValue>) {
     }
 }
 
+/// Column-first view of every live node (`GraphStore::node_properties_merged`: the column wins on a clash).
+fn merged_view(g: &GraphStore) -> std::collections::BTreeMap<u64, std::collections::BTreeMap<String, String>> {
+    g.all_nodes().iter().map(|n| (n.id.as_u64(), crate::kit::dump::canon_props(g.node_properties_merged(n.id).iter()))).collect()
+}
+
 fn build(eng: &QueryEngine, stmts: &[String]) -> Result<GraphStore, String> {
     let mut g = GraphStore::new();
     for q in stmts {
@@ -417,7 +449,7 @@ fn gen_stmt(r: &mut Rng, k: u64) -> Value {
         "deleted_node" => (["match_asc", "match_asc", "match"][r.usize_below(3)], "own"),
         _ => {
             let src = if wk == "CREATE" || wk == "MERGE" { ["unwind", "unwind", "match", "match_asc"][r.usize_below(4)] } else { ["match", "match_asc", "match_desc", "unwind_match"][r.usize_below(4)] };
-            let site = if wk == "CREATE" || wk == "MERGE" { ["own", "own", "where", "return"][r.usize_below(4)] } else if wk == "SET" { ["own", "where", "return", "return"][r.usize_below(4)] } else { ["where", "return"][r.usize_below(2)] };
+            let site = if wk == "CREATE" || wk == "MERGE" { ["own", "own", "where", "return", "with"][r.usize_below(5)] } else if wk == "SET" { ["own", "where", "return", "return", "with"][r.usize_below(5)] } else { ["where", "return", "with"][r.usize_below(3)] };
             (src, site)
         }
     };
@@ -441,7 +473,7 @@ impl Scenario for C05 {
         16
     }
     fn rule(&self) -> &'static str {
-        "case = (graph variant, one multi-row write statement): k<=5 row nodes plus bystanders, knobs {property index, unique constraint, extra relationships, compaction, freed ids}; statement = row source {UNWIND, MATCH, MATCH..ORDER BY asc/desc, UNWIND+MATCH} x write kind {CREATE, MERGE, SET, REMOVE, LABEL, DELETE} x failure kind {div0, type, dup (label :A under 1-3 unique constraints), deleted_node, connected (plain DELETE of a node that keeps a relationship the clause does not name)} x failure site {in the write's own expression, WHERE before it, RETURN after it}; the poisoned row position is enumerated 0..k-1 (one sub-execution each). Non-trivial = at least one sub-execution failed at run time (the planted failure fired). Distinct = hash of (k, knobs, statement shape, extras)."
+        "case = (graph variant, one multi-row write statement): k<=5 row nodes plus bystanders, knobs {property index, unique constraint, extra relationships, compaction, freed ids}; statement = row source {UNWIND, MATCH, MATCH..ORDER BY asc/desc, UNWIND+MATCH} x write kind {CREATE, MERGE, SET, REMOVE, LABEL, DELETE} x failure kind {div0, type, dup (label :A under 1-3 unique constraints), deleted_node, connected (plain DELETE of a node that keeps a relationship the clause does not name)} x failure site {in the write's own expression, WHERE before it, RETURN after it, projection of a WITH between source and write (bare / sorting / behind a sorting WITH)}; the poisoned row position is enumerated 0..k-1 (one sub-execution each). Non-trivial = at least one sub-execution failed at run time (the planted failure fired). Distinct = hash of (k, knobs, statement shape, extras)."
     }
     fn real_components(&self) -> Vec<&'static str> {
         vec!["samyama::query::QueryEngine (parser, planner, MutQueryExecutor::execute_plan_mut, write operators)", "GraphStore mutators, label/type indexes, ColumnStore", "IndexManager property and constraint indexes"]
@@ -454,6 +486,8 @@ impl Scenario for C05 {
             "nothing is asserted when the statement returns Ok (swallowed failures and wrong effects are C04/C01 matters); planning-time refusals are counted separately",
             "free-list state and id allocation are not 'the graph': ids handed to later writes are not compared, contents are",
             "which node the constraint index names as holder is not compared (hash-order dependent when several are recorded), only whether a value is held, plus probe writes",
+            "a failure planted in the projection of a WITH that precedes the write clause has its own row class ('row>0_fail_in_with_projection', 'row0_fail_in_with_projection', single-row 'fail_in_with_projection'): today such a statement leaves the graph untouched at every row position, so none of these is a listed finding",
+            "node properties are compared in both views: row-first (dump, `node_properties_full`) and column-first (`node_properties_merged`, the order `n.k` is resolved in queries), each against the twin's",
             "row classes in signatures: 'row>0' = entities of rows other than the poisoned one stayed changed; 'row0_*' = only the poisoned row's own entities (or unattributable ones) changed, qualified by where the failure sits relative to that row's write",
         ]
     }
@@ -468,6 +502,9 @@ impl Scenario for C05 {
             "set_label_refused_under_several_constraints",
             "delete_refused_naming_some_relationships",
             "delete_refused_naming_no_relationship",
+            "failed_in_with_projection_graph_unchanged",
+            "failed_in_with_projection_after_first_row",
+            "constrained_set_refused_both_property_stores_unchanged",
         ]
     }
     fn generate(&self, s: &mut Streams, _run_index: u64, _tier: Tier) -> Case {
@@ -584,6 +621,10 @@ impl Scenario for C05 {
                 let others: Vec<usize> = rows.iter().cloned().filter(|r| *r != p).collect();
                 let sig = if spec.k == 1 {
                     format!("C05/single_row_statement_left_effect/{}/{}/{}", spec.wk, spec.fk, spec.site_class())
+                } else if !others.is_empty() && spec.site == "with" {
+                    // not the row-by-row streaming of the write clause (the listed `row>0` classes): here the
+                    // failure sits upstream of a WITH, i.e. before the first row may reach the write
+                    format!("C05/partial_effect/{}/{}/row>0_fail_in_with_projection", spec.wk, spec.fk)
                 } else if !others.is_empty() {
                     format!("C05/partial_effect/{}/{}/row>0", spec.wk, spec.fk)
                 } else {
@@ -619,9 +660,23 @@ impl Scenario for C05 {
                 trace.push(format!("p{p}:err:view:{view}"));
                 break;
             }
+            // ---- 2b. the column-first view of every node.  Node properties live in two stores (the row map
+            // on the node and the column store); `dump` reads row-first (`node_properties_full`), the query
+            // path (`n.k` in RETURN / WHERE) and `node_properties_merged` read column-first.  A failed
+            // statement must leave BOTH as they were: compare the column-first view with the twin's.
+            let (ma, mb) = (merged_view(&g), merged_view(&twin));
+            if ma != mb {
+                let diff: Vec<String> = ma.iter().filter(|(id, m)| mb.get(*id) != Some(*m)).map(|(id, m)| format!("node {id}: column-first view {:?}, before {:?}, row-first view now {:?}", m, mb.get(id), post.nodes.get(id).map(|n| &n.props))).collect();
+                o.violate(Violation::new(format!("C05/index_differs_graph_equal/column_store/{}/{}", spec.wk, spec.fk), format!("{ctx}; the row-first view of the graph is unchanged but the column-first view (node_properties_merged, what `RETURN n.k` reads) differs: {}", diff.join("; ")), p).with_pin(pin));
+                trace.push(format!("p{p}:err:view:column_store"));
+                break;
+            }
+            if spec.wk == "SET" && spec.fk == "dup" {
+                o.probe("constrained_set_refused_both_property_stores_unchanged");
+            }
             // ---- 3. index-forced reads
             let mut bad = None;
-            for rq in ["MATCH (n:A) WHERE n.v = 1 RETURN n.k", "MATCH (n:A {v: 99}) RETURN n.k", "MATCH (n:R) WHERE n.v = 0 RETURN n.k", "MATCH (n:A {u: 150}) RETURN n.k", "MATCH (n:Z) RETURN n.k", "MATCH (n:B) WHERE n.v = 2 RETURN n.k", "MATCH (n)-[r:T]->(m) RETURN n.k, m.k", "MATCH (n)-[r:U]->(m) RETURN n.k, m.k"] {
+            for rq in ["MATCH (n:A) WHERE n.v = 1 RETURN n.k", "MATCH (n:A {v: 99}) RETURN n.k", "MATCH (n:R) WHERE n.v = 0 RETURN n.k", "MATCH (n:A {u: 150}) RETURN n.k", "MATCH (n:Z) RETURN n.k", "MATCH (n:B) WHERE n.v = 2 RETURN n.k", "MATCH (n)-[r:T]->(m) RETURN n.k, m.k", "MATCH (n)-[r:U]->(m) RETURN n.k, m.k", "MATCH (n) RETURN n.k, n.v, n.u, n.w, n.d, n.z, n.x", "MATCH (n:R) WHERE n.u = 150 RETURN n.k"] {
                 if spec.index && rq.contains("n.v = 1") {
                     if let Run::Ok(b) = exec_read(&eng, &g, &format!("EXPLAIN {rq}")) {
                         if rows_canon(&b, &g, false).join(" ").contains("IndexScan") {
@@ -690,6 +745,12 @@ impl Scenario for C05 {
                 break;
             }
             o.probe("stmt_failed_unchanged");
+            if spec.site == "with" && !planning {
+                o.probe("failed_in_with_projection_graph_unchanged");
+                if p > 0 {
+                    o.probe("failed_in_with_projection_after_first_row");
+                }
+            }
             trace.push(format!("p{p}:err:unchanged"));
         }
         o.nontrivial = any_runtime_failure;
